@@ -4,6 +4,8 @@
 -/
 import YV.Proofs.XEval
 import YV.Spec.XSem
+import YV.Model.XTables
+import YV.Gen.XPath
 namespace YV.C01
 open YV YV.X YV.XS
 
@@ -16,6 +18,10 @@ theorem C01_machine_eq_tree (env : Env) (e : Expr) (hw : WellFormed e) :
   cases h : evalM env e with
   | error x => simp
   | ok v => simp [exec, step, pop]
+
+/-- the function table of the source (names, arities, argument kinds, return kinds) is the one the
+    model's `Fn.sig` and `WellFormed` range over — regenerated from xpath/symbol.go on every run -/
+theorem C01_fn_table : Gen.fnTable = XT.fnTableSorted := by decide
 
 /-- non-vacuity: a nested, well-formed expression -/
 example : WellFormed (.call .substring [.lit "12345".toList, .bin .div (.num SF.one) (.num SF.zero), .neg (.env 0)]) := by
